@@ -243,7 +243,7 @@ func cmdCheck(args []string) int {
 				continue
 			}
 			// failed: known finding?
-			if kf := matchKnown(&known, *prop, f.res.Key, o); kf != nil {
+			if kf := matchKnown(&known, *prop, f.res.Key, o); kf != nil && e.onlyKnownClass(vcOf[o], o, kf, cfg) {
 				nKnown++
 				key := kf.Function + "#" + kf.Obligation
 				if !reportedKF[key] {
@@ -296,8 +296,30 @@ func cmdCheck(args []string) int {
 		rep.Seconds = round3(rep.Seconds)
 		reports = append(reports, rep)
 	}
-	for _, kf := range known.Findings {
-		_ = kf
+	// bounded stand-ins (labelled bounded, never counted as discharged)
+	standins := runStandins(*repo, vd, *prop, tmp, &known)
+	var standinEv []any
+	for _, sr := range standins {
+		standinEv = append(standinEv, sr)
+		for _, l := range sr.KnownLines {
+			fmt.Printf("KNOWN-FINDING: property=%s %s\n", *prop, l)
+		}
+		if sr.Error != "" {
+			fmt.Printf("UNDECIDED property=%s standin=%s reason=%q\n", *prop, sr.Name, firstLineOf(sr.Error))
+			undecided = append(undecided, "standin "+sr.Name+": "+firstLineOf(sr.Error))
+			if exit == 0 {
+				exit = 2
+			}
+		}
+		if len(sr.Unknown) > 0 {
+			rfile := filepath.Join(outDir, "replays", *prop, "standin-"+sr.Name+".json")
+			b, _ := json.MarshalIndent(map[string]any{"property": *prop, "standin": sr.Name, "bound": sr.Bound, "failing_inputs": sr.Unknown,
+				"replay": "bin/govc check --property " + *prop + " (re-runs the stand-in on the real code)"}, "", " ")
+			os.WriteFile(rfile, b, 0o644)
+			fmt.Printf("VIOLATION property=%s replay=%s\n", *prop, rfile)
+			violations += len(sr.Unknown)
+			exit = 1
+		}
 	}
 	wall := time.Since(t0).Seconds()
 	if *writeBaseline {
@@ -348,7 +370,7 @@ func cmdCheck(args []string) int {
 		"vacuity_probes":           nVac,
 		"vacuity_probes_ok":        nVacOK,
 		"samples":                  samples,
-		"bounded_standins":         []string{},
+		"bounded_standins":         standinEv,
 		"two_solver_confirmation":  cfg.Confirm,
 		"per_obligation_timeout_s": cfg.TimeoutS,
 	}
@@ -393,6 +415,43 @@ func matchKnown(k *KnownFile, prop, fn string, o *Obligation) *KnownFinding {
 		}
 	}
 	return nil
+}
+
+// onlyKnownClass: the obligation fails only inside the finding's input class, i.e. with the class
+// excluded by an extra hypothesis the obligation is discharged.  A failure outside the class is a
+// different violation and is reported as such.
+func (e *Engine) onlyKnownClass(vc *VC, o *Obligation, kf *KnownFinding, cfg SolverCfg) (ok bool) {
+	if kf.InputClass == "" {
+		return true
+	}
+	if vc == nil || o.Env == nil {
+		return false
+	}
+	defer func() {
+		if r := recover(); r != nil {
+			ok = false
+		}
+	}()
+	ex, err := ParseExpr(kf.InputClass)
+	if err != nil {
+		return false
+	}
+	cls := o.Env.evalBool(ex)
+	o2 := *o
+	o2.Result, o2.Folded = "", false
+	text := e.script(vc, &o2, []*Term{Not(cls)}, nil)
+	file := filepath.Join(cfg.TmpDir, "known-"+safeName(o.Name+o.Case)+".smt2")
+	os.WriteFile(file, []byte(text), 0o644)
+	for _, s := range []string{"z3-new", "cvc5", "z3"} {
+		r, _, _ := runSolver(s, file, cfg.TimeoutS)
+		if r == "unsat" {
+			return true
+		}
+		if r == "sat" && s != "z3" {
+			return false
+		}
+	}
+	return false
 }
 
 func writeEvidenceError(vd, prop, tier string, seed int, msg string, wall float64) {
